@@ -53,14 +53,35 @@ func c09Row(r *rt.Rand, id int, fields []string, missingChance int) string {
 func runC09(c *rt.Ctx) {
 	c.Note("rule", "(a) lake: pools whose objects hold records with fields of every class (string, int, uint, float, bool, nullable int/string, mixed-type, constant, sometimes missing), several objects; the auto-vectorized shapes `count() by <f>` and `sum(<f>)` are run at parallelism 2 with no vectors, after vector add on every object, and after vector delete; the three results must be equal as multisets and error-free together; (b) whole programs from a small grammar over the vector compiler's subset (yield, cut, drop, put, rename, where, head, tail, sort, arithmetic, comparison, logic, field access, len/fields/typeof-free functions) compiled with compiler.VectorCompile over a vcache object built from the VNG encoding of the data versus the sequential runtime on the same values; programs the vector compiler rejects are outside the claim and only counted; disagreements are classified by the program's shape (field names replaced by type classes, literals abstracted) and the kind of disagreement; non-trivial = (a) plan contained a vector operator (all objects had vectors), (b) the vector compiler accepted the program")
 	c.Note("assumptions", "union-typed and enum columns are excluded from C09's data (their vector-cache loading defects are C03's findings and would kill the process)\nfloat sums use values exactly representable so association cannot change a bit")
-	na := c.N(60, 1500)
+	na := c.N(24, 400)
 	for i := 0; i < na; i++ {
 		c.Case("lake", i, func(o *rt.Obs) { c09Lake(c, o) })
 	}
 	nb := c.N(400, 12000)
 	for i := 0; i < nb; i++ {
-		c.Case("prog", i, func(o *rt.Obs) { c09Prog(c, o) })
+		c.Case("prog", i, func(o *rt.Obs) { c09Prog(c, o, "", "") })
 	}
+	// reproducers of the open findings (re-executed on every run)
+	c.Case("directed", 0, func(o *rt.Obs) { c09Lake(c, o) })
+	for i, d := range c09Directed {
+		d := d
+		c.Case("directed", i+1, func(o *rt.Obs) { c09Prog(c, o, d[0], d[1]) })
+	}
+}
+
+// c09Directed: (program, shape) pairs run over fixed rows.
+var c09Directed = [][2]string{
+	{"where b | cut id,s", "where <bool> | cut id,<string>"},
+	{"put y:=not true", "put y:=not <bool>"},
+	{"yield n/0", "yield (<int64>/<zero>)"},
+	{"yield not s", "yield not <string>"},
+	{"where (z<null)", "where (<int64-with-nulls><<null>)"},
+}
+
+var c09FixedRows = []string{
+	`{id:1,s:"a",n:1,u:2(uint64),x:4.,b:true,z:null(int64),t:"a"}`,
+	`{id:2,s:"c",n:3,u:7(uint64),x:-0.5,b:false,z:6,t:null(string)}`,
+	`{id:3,s:"",n:0,u:1(uint64),x:1.,b:true,z:5,t:"b"}`,
 }
 
 var c09num = regexp.MustCompile(`-?\d+(\.\d*)?`)
@@ -102,7 +123,7 @@ func c09Lake(c *rt.Ctx, o *rt.Obs) {
 		for _, p := range progs {
 			var recs []gen.Rec
 			var err error
-			ok, pan, _ := rt.Watchdog(60*time.Second, func() { recs, err = l.QueryPar(ctx, p, 2) })
+			ok, pan, _ := rt.Watchdog(15*time.Second, func() { recs, err = l.QueryPar(ctx, p, 2) })
 			if !ok {
 				err = fmt.Errorf("hang: query did not return within the watchdog")
 			} else if pan != nil {
@@ -341,7 +362,7 @@ func c09GenProg(r *rt.Rand) (text, shape string) {
 	}
 }
 
-func c09Prog(c *rt.Ctx, o *rt.Obs) {
+func c09Prog(c *rt.Ctx, o *rt.Obs, fixedText, fixedShape string) {
 	ctx := context.Background()
 	r := o.R
 	zctx := zed.NewContext()
@@ -351,6 +372,9 @@ func c09Prog(c *rt.Ctx, o *rt.Obs) {
 		rows = append(rows, c09Row(r, i+1, fields, 0))
 	}
 	text, shape := c09GenProg(r)
+	if fixedText != "" {
+		text, shape, rows = fixedText, fixedShape, c09FixedRows
+	}
 	o.Desc(map[string]any{"program": text, "rows": rows})
 	if o.Index%300 == 0 {
 		o.Sample(map[string]any{"program": text, "rows": rows})
